@@ -300,17 +300,24 @@ def grouping(rep, prog):
                 gb.append(c)
     if len(gb) != 1:
         raise AnalysisError('PGPKey.parse: expected exactly one itertools.groupby over the packet stream')
+    calls_of = {id(gb[0]): next(s.calls for s in outs if any(c is gb[0] for c in s.calls))}
     stream = gb[0][1][0]
     keytext = gb[0][2].get('key', gb[0][1][1] if len(gb[0][1]) > 1 else None)
     # ---- Trust packets removed from the stream BEFORE grouping (the value that reaches groupby is a filtered stream)
     m = re.match(r'^EACH\((\$[\d.]+) in (.*);\1\)$', stream)
     okf = False
+    kept = None             # (element text, skeleton of the condition under which an element of the stream is kept)
     if m is not None:
         v, (base, conds) = m.group(1), split_filter(m.group(2))
+        kept = (v, conj(conds)) if conds else None
+    else:
+        kept = _generator_stream(prog, f, gb[0] + (calls_of[id(gb[0])],))
+    if kept is not None:
+        v, cond = kept
         trust = prog.cls('pgpy.constants', 'PacketTag').enum_members().get('Trust')
         for t in ('PacketTag.Trust', repr(trust)):
-            for a in ('%s.header.tag == %s' % (v, t), '%s == %s.header.tag' % (t, v), '%s.header.typeid == %s' % (v, t)):
-                okf = okf or (bool(conds) and same(conj(conds), ('not', skeleton(a))))
+            for a in ('%s.header.tag == %s' % (v, t), '%s.header.typeid == %s' % (v, t)):
+                okf = okf or same(cond, ('not', skeleton(a)))
     rep.check(okf, 'C14.3', 'PGPKey.parse', 'packet stream %s' % stream[:100],
               'Trust packets (keyring-local) must be removed from the packet stream before grouping: a Trust packet that opens a group swallows the '
               'signatures that follow it', where=where, expected='groupby(filter(lambda p: p.header.tag != PacketTag.Trust, ...), ...)')
@@ -424,6 +431,51 @@ def grouping(rep, prog):
                     seen.add(key_)
                     rep.check(okp, 'C14.3', 'PGPKey.parse', 'filing (%s, primary=%s): %s [%s]' % (scen, primary, filed, status), rule, where=where,
                               expected=want, found=filed, scenario=scen)
+
+
+def _generator_stream(prog, f, gbcall):
+    """The packet stream handed to groupby is the result of a generator of the program (`self._iter_packets(data, skip)`): the
+    generator is interpreted with the arguments of that call; -> (text of the yielded element, condition under which the element
+    parsed in an iteration is yielded), None when the stream is not such a call or does not have that shape."""
+    from sa.interp import Frame, State
+    from sa.loader import FunctionInfo
+    node = gbcall[4].args[0] if gbcall[4].args else None
+    # the call that produced the stream value: found among the recorded calls by its rendered result
+    stream = gbcall[1][0]
+    mcall = re.match(r'^((?:\w+\.)*)(\w+)\((.*)\)$', stream)
+    if mcall is None:
+        return None
+    name = mcall.group(2)
+    callee = f.cls.find_method(name) if (f.cls is not None and mcall.group(1)) else None
+    if callee is None and not mcall.group(1):
+        r = prog.lookup(f.module, name)
+        callee = r if isinstance(r, FunctionInfo) else None
+    if callee is None or not any(isinstance(n, (ast.Yield, ast.YieldFrom)) for n in ast.walk(callee.node)):
+        return None
+    params = list(callee.params)
+    if callee.cls is not None and not any(dotted(d) == 'staticmethod' for d in callee.node.decorator_list):
+        params = params[1:]
+    fr = Frame(Interp(prog, Scenario(inline=noinline)), f, 0)
+    args = {}
+    made = [c for c in gbcall[5] if '%s(%s)' % (c[0], ', '.join(list(c[1]) + ['%s=%s' % kv for kv in c[2].items()])) == stream]
+    if not made:
+        return None
+    cnode = made[0][4]
+    for pn, an in list(zip(params, cnode.args)) + [(k.arg, k.value) for k in cnode.keywords if k.arg]:
+        args[pn] = fr.ev(an, State())           # the argument expressions of that call (locals of parse stay symbolic)
+    outs, recs = observe(prog, callee, args=args)
+    yielded, conds = set(), []
+    for r in recs:
+        for status, facts, events, ys in r.paths:
+            if len(ys) > 1:
+                return None
+            if ys:
+                yielded.add(ys[0])
+                conds.append(path_cond(facts))
+    loose = [render(y) for s in outs for y in s.yields if not render(y).startswith('EACH(')]
+    if len(yielded) != 1 or loose:
+        return None
+    return yielded.pop(), any_of(conds)
 
 
 def grouper(rep, prog, f, keytext):
